@@ -189,6 +189,21 @@ func (h *histState) pairwise() {
 				h.ctr.inc("selection_pairs_compared")
 				h.mark("selection_pairs", shortHash(k+ka+kb))
 				h.checks++
+				// a lint both selections contain must have a result in both runs
+				if !ra.partial && !rb.partial {
+					miss := func(p, q *lintRecord) {
+						for _, n := range sortedKeys(p.canon.Results) {
+							if _, ok := q.canon.Results[n]; !ok && q.sel[n] && !reported["missing:"+n] {
+								reported["missing:"+n] = true
+								h.violate(Violation{Property: "C07", Class: "missing_in_other_selection", Lint: n, Op: q.op,
+									Detail: fmt.Sprintf("op %d (reg %d, %d lints) has a result for this lint, op %d (reg %d, %d lints, which also selects it) on the same bytes under the same configuration has none", p.op, p.reg, len(p.sel), q.op, q.reg, len(q.sel))})
+								return
+							}
+						}
+					}
+					miss(ra, rb)
+					miss(rb, ra)
+				}
 				for _, n := range sortedKeys(ra.canon.Results) {
 					x := ra.canon.Results[n]
 					y, ok := rb.canon.Results[n]
